@@ -319,7 +319,11 @@ func (s *Sorter) SortedBlocks(ctx context.Context, removedCols map[int]struct{},
 			minRow = r.RemoveFrom(minRow)
 			row := dec.Decode(minRow)
 			if pkIndices == nil {
+				// row no longer has removedCols so shift the indices accordingly
 				pkIndices = s.pkIndices(len(row))
+				if len(s.PK) > 0 {
+					pkIndices = shiftIndices(s.PK, removedCols)
+				}
 				blkPK = make([]string, 0, len(pkIndices))
 				rowPK = make([]string, len(pkIndices))
 				prevRowPK = make([]string, len(pkIndices))
@@ -387,6 +391,23 @@ func (s *Sorter) SortedBlocks(ctx context.Context, removedCols map[int]struct{},
 		}
 	}()
 	return
+}
+
+// shiftIndices translates column indices to what they become after removedCols are dropped
+func shiftIndices(indices []uint32, removedCols map[int]struct{}) []uint32 {
+	if len(removedCols) == 0 || len(indices) == 0 {
+		return indices
+	}
+	sl := make([]uint32, len(indices))
+	for i, u := range indices {
+		sl[i] = u
+		for j := range removedCols {
+			if j < int(u) {
+				sl[i]--
+			}
+		}
+	}
+	return sl
 }
 
 func pkIsDifferent(pk, prevPK []string) bool {
